@@ -1,7 +1,55 @@
-(* C20 -- legacy {...} patterns render, read back and increase consistently. (theorems are added as they are proved) *)
-From Coq Require Import List NArith.
-From BV Require Import Lib.PyStr Model.V2 Model.V1 Model.CliAll.
+(* C20 -- legacy {...} patterns render, read back and increase consistently. *)
+From Coq Require Import List Bool NArith ZArith.
+From BV Require Import Lib.PyStr Model.V2 Model.Cli Model.V1 Model.CliAll Proofs.ConfigFacts.
 Import ListNotations.
-Example C20_dispatch_pycalver : has_v1_part [123;112;121;99;97;108;118;101;114;125]%N = true.
+Local Open Scope N_scope.
+
+Theorem C20_str_in_brace_has_braces : forall name raw,
+  str_in (brace name) raw = true -> mem_chr 123 raw = true /\ mem_chr 125 raw = true.
+Proof. exact str_in_brace_has_braces. Qed.
+Print Assumptions C20_str_in_brace_has_braces.
+
+(* the two engine switches never disagree: a pattern sent to the legacy engine is never classified as new *)
+Theorem C20_dispatch_consistent_v1 : forall raw, has_v1_part raw = true -> is_new_pattern raw = false.
+Proof. exact dispatch_consistent_v1. Qed.
+Print Assumptions C20_dispatch_consistent_v1.
+
+Theorem C20_dispatch_consistent_v2 : forall raw, is_new_pattern raw = true -> has_v1_part raw = false.
+Proof. exact dispatch_consistent_v2. Qed.
+Print Assumptions C20_dispatch_consistent_v2.
+
+(* pycalver semver year month dom doy quarter build_no release MAJOR MINOR PATCH pep440_pycalver pep440_version *)
+Theorem C20_repo_v1_parts_known :
+  forallb (fun p => existsb (eqb_str p) v1_parts)
+    [ [112;121;99;97;108;118;101;114]; [115;101;109;118;101;114]; [121;101;97;114]; [109;111;110;116;104]; [100;111;109]; [100;111;121];
+      [113;117;97;114;116;101;114]; [98;117;105;108;100;95;110;111]; [114;101;108;101;97;115;101]; [77;65;74;79;82]; [77;73;78;79;82];
+      [80;65;84;67;72]; [112;101;112;52;52;48;95;112;121;99;97;108;118;101;114]; [112;101;112;52;52;48;95;118;101;114;115;105;111;110] ] = true.
+Proof. exact repo_v1_parts_known. Qed.
+Print Assumptions C20_repo_v1_parts_known.
+
+(* v201712.0033-beta under {pycalver}: parses to year 2017, quarter 4, month 12, build 0033, tag beta; renders back
+   to itself; incremented on 2018-06-01 (ordinal 736845) gives v201806.0034-beta *)
+Example C20_pycalver_roundtrip :
+  v1_parse_version_info [118;50;48;49;55;49;50;46;48;48;51;51;45;98;101;116;97] [123;112;121;99;97;108;118;101;114;125]
+    = POk (mkv1 (Some 2017%Z) (Some 4%Z) (Some 12%Z) None None None None 0%Z 0%Z 0%Z [48;48;51;51] [98;101;116;97]) /\
+  v1_format_version (mkv1 (Some 2017%Z) (Some 4%Z) (Some 12%Z) None None None None 0%Z 0%Z 0%Z [48;48;51;51] [98;101;116;97])
+                    [123;112;121;99;97;108;118;101;114;125]
+    = Some [118;50;48;49;55;49;50;46;48;48;51;51;45;98;101;116;97] /\
+  v1_incr [118;50;48;49;55;49;50;46;48;48;51;51;45;98;101;116;97] [123;112;121;99;97;108;118;101;114;125]
+          (mkflags false false false None false false false) 736845%Z
+    = INew [118;50;48;49;56;48;54;46;48;48;51;52;45;98;101;116;97].
+Proof. exact pycalver_roundtrip. Qed.
+Print Assumptions C20_pycalver_roundtrip.
+
+(* 1.2.3 under {semver}: patch gives 1.2.4, minor 1.3.0, major 2.0.0, no flag leaves it unchanged *)
+Example C20_semver_bump :
+  v1_incr [49;46;50;46;51] [123;115;101;109;118;101;114;125] (mkflags false false true None false false false) 736845%Z = INew [49;46;50;46;52] /\
+  v1_incr [49;46;50;46;51] [123;115;101;109;118;101;114;125] (mkflags false true false None false false false) 736845%Z = INew [49;46;51;46;48] /\
+  v1_incr [49;46;50;46;51] [123;115;101;109;118;101;114;125] (mkflags true false false None false false false) 736845%Z = INew [50;46;48;46;48] /\
+  v1_incr [49;46;50;46;51] [123;115;101;109;118;101;114;125] (mkflags false false false None false false false) 736845%Z = INone.
+Proof. exact semver_bump. Qed.
+Print Assumptions C20_semver_bump.
+
+Example C20_dispatch_pycalver : has_v1_part [123;112;121;99;97;108;118;101;114;125] = true.
 Proof. vm_compute. reflexivity. Qed.
 Print Assumptions C20_dispatch_pycalver.
